@@ -1,6 +1,7 @@
 package main
 
 import (
+	"math"
 	"fmt"
 )
 
@@ -27,7 +28,9 @@ func genSetOp(r *Run) SOp {
 	name := pick(r, []string{"si", "ss", "bv", "x1", "x2", "c1", "lst", "user", "sb"})
 	switch r.Rng.Intn(7) {
 	case 0:
-		return SOp{Kind: "static", Name: name, Val: pick(r, intPool)}
+		// (within the int32 range: a code-generated inspector casts the right side of a comparison to the field's
+		// width, and these names are compared with int32 fields by the generated templates)
+		return SOp{Kind: "static", Name: name, Val: pick(r, []int64{0, 1, -1, 2, 3, 5, 7, 10, 42, -17, 100, 127, 128, 255, 256, 1000, math.MaxInt32, math.MinInt32})}
 	case 1:
 		return SOp{Kind: "static", Name: name, Val: pick(r, strPool)}
 	case 2:
@@ -113,13 +116,14 @@ func init() {
 		for h := 0; h < r.N(2500, 60000); h++ {
 			c := &RCase{}
 			n := 2 + r.Rng.Intn(8)
-			c.Ops = append(c.Ops, genEnv(r).Ops...)
+			env := genEnv(r)
+			c.Ops = append(c.Ops, env.Ops...)
 			for i := 0; i < n; i++ {
 				if r.Rng.Intn(3) == 0 {
 					c.Ops = append(c.Ops, genSetOp(r))
 					continue
 				}
-				rc, _ := genCase(r, GenCfg{MaxDepth: 2, MaxNodes: 8, Loops: true, CtxSet: true, Counter: true, Mods: true, Helpers: true})
+				rc, _ := genCaseEnv(r, GenCfg{MaxDepth: 2, MaxNodes: 8, Loops: true, CtxSet: true, Counter: true, Mods: true, Helpers: true}, env)
 				key := fmt.Sprintf("t%d", i)
 				for _, t := range rc.Tpls {
 					if t.Key == "main" {
@@ -132,6 +136,23 @@ func init() {
 			c.Tpls = append(c.Tpls, TplDef{Key: "read", Src: `[{%= x1 %}|{%= x2 %}|{%= c1 %}|{%= cn %}|{%= si %}|{%= bv %}|{%= ok1 %}|{%= bv|default(x1) %}|{% if x1 == "lit" %}L{% endif %}{% if c1 > 3 %}G{% endif %}]`, KeepFmt: true})
 			c.Ops = append(c.Ops, SOp{Kind: "render", Key: "read"})
 			cases = append(cases, c)
+		}
+		// enumerated: assignments to a loop variable inside its body (ctx tag, counter tag, inner loop of the same
+		// name) — the variable reads the assigned value until the next iteration binds it again
+		for _, open_ := range []string{"{% for i := 0; i < 3; i++ %}", "{% for i := 2; i >= 0; i-- %}", "{% for i, e := range lst %}"} {
+			for _, asg := range []string{`{% ctx i = 2 %}`, `{% ctx i = "x" %}`, `{% ctx i = si %}`, `{% counter i = 7 %}`, `{% for i := 5; i < 6; i++ %}.{% endfor %}`, ``} {
+				for _, nested := range []bool{false, true} {
+					body := "[" + "{%= i %}" + asg + "{%= i %}" + "{% if i == 2 %}=2{% endif %}" + "]"
+					src := open_ + body + "{% endfor %}|{%= i %}"
+					if nested {
+						src = "{% for k := 0; k < 2; k++ %}" + open_ + body + "{% endfor %}{%= k %};{% endfor %}|{%= i %}"
+					}
+					c := &RCase{Tpls: []TplDef{{Key: "main", Src: src, KeepFmt: true}}, Meta: map[string]any{"loop-var-assignment": asg}}
+					c.Ops = []SOp{{Kind: "strs", Name: "lst", Val: []string{"p", "q", "r"}}, {Kind: "static", Name: "si", Val: int64(9)}, {Kind: "render", Key: "main"}, {Kind: "render", Key: "main"}}
+					cases = append(cases, c)
+					r.Dist["loop-var-assignment"]++
+				}
+			}
 		}
 		runSessions(r, cases, outputDiffers)
 		// known finding probe: a ctx variable assigned from a counter aliases the counter's storage
